@@ -25,3 +25,51 @@ Theorem C15_collect_tagged :
     collect path (ytree marked path j) = Ok (yplain j, epaths marked path j).
 Proof. exact collect_ytree. Qed.
 Print Assumptions C15_collect_tagged.
+
+(* ---- "ordered so that issuing with them succeeds" and "issuing from the parsed result is equivalent to issuing
+   from the plain JSON claims with those paths" ----
+   eaddrs marked [] j are the addresses of the tagged nodes in the order parse_yaml reports them. The reported
+   strings are their JSON pointers; each is a node of the claims below the root; no address comes after itself or
+   after one of its ancestors (descendants first, no repeats): a valid marking in the sense of C14. *)
+Require Import SDJ.T1r SDJ.T1s SDJ.DecStr SDJ.PathStr SDJ.PathThm SDJ.YamlOrd SDJ.YamlIssue.
+Theorem C15_paths_are_a_valid_marking :
+  forall (marked : list string -> bool) j,
+    jwf j -> (forall a, In a (eaddrs marked [] j) -> small a) ->
+    epaths marked [] j = map (T1s.render Wire.show_nat) (eaddrs marked [] j) /\
+    Forall (node_addr j) (eaddrs marked [] j) /\ ordered (eaddrs marked [] j).
+Proof. exact yaml_paths_are_pointers. Qed.
+Print Assumptions C15_paths_are_a_valid_marking.
+
+(* end to end: whatever parse_yaml returns for the tagged document of claims (JObj ckvs) can be handed to the issuer
+   as it is; encode succeeds, Holder::verify returns the claims of the document without its tags, and every
+   disclosure is reported under the path parse_yaml reported for its node (premises as in C01_encode_json_pointers) *)
+Require Import SDJ.Out SDJ.Restore2 SDJ.ATree SDJ.T2c SDJ.T1j SDJ.T1k SDJ.T1p SDJ.Issuer2 SDJ.Verify.
+Theorem C15_yaml_then_issue :
+  forall (E : issue_env) (O : oracles),
+  (forall x y, ie_hash E x = ie_hash E y -> x = y) ->
+  (forall ps, o_dec O (ie_enc E ps) = DJson (JArr ps)) ->
+  o_hash O SHA256 = ie_hash E ->
+  (forall h p j, ie_sign E h p = Val j -> o_jwt O j = Val (h, p)) ->
+  (forall h p, exists j, ie_sign E h p = Val j /\ Split.contains Split.tilde j = false) ->
+  (forall ps, Split.contains Split.tilde (ie_enc E ps) = false) ->
+  (forall xs, Permutation.Permutation (ie_perm E xs) xs) ->
+  forall (marked : list string -> bool) (ckvs : list (string * json)) (max_decoys : option BinNums.Z) (cnf : option json) (header : json),
+  jwf (JObj ckvs) -> ~ In "_sd_alg" (map fst ckvs) -> ~ In "cnf" (map fst ckvs) ->
+  NoDup (ie_salts E) ->
+  (forall a, In a (eaddrs marked [] (JObj ckvs)) -> small a) ->
+  forall paths, parse_yaml_tree (ytree marked [] (JObj ckvs)) = Ok (JObj ckvs, paths) ->
+  paths <> [] -> List.length paths <= List.length (ie_salts E) ->
+  exists t',
+    (exists tks, split_paths paths = Some tks /\
+       T1j.mark_fold (ie_hash E) (ie_enc E) Issuer2.parse_index Issuer2.parse_usize (ie_pos E) (embed (JObj ckvs)) tks (ie_salts E) = Some t') /\
+    (NoDup (decoys_used E max_decoys) ->
+     (forall g, In g (decoys_used E max_decoys) -> ~ In g (alldigs (ie_hash E) (ie_enc E) t')) ->
+     (match cnf with Some c => jwf c /\ S (aheight (embed c)) <= 129 | None => True end) ->
+     aheight t' <= 129 ->
+     exists token payload ds ps,
+       issue E (JObj ckvs) paths max_decoys cnf header = Val (token, payload, ds) /\
+       holder_verify O token = Val (header, match cnf with Some c => JObj (obj_insert "cnf" c ckvs) | None => JObj ckvs end, ps) /\
+       Permutation.Permutation (map snd ps) ds /\
+       Forall2 (fun d p => In (p, d) ps) ds paths).
+Proof. exact yaml_then_issue. Qed.
+Print Assumptions C15_yaml_then_issue.
